@@ -1570,6 +1570,11 @@ func (o *Oracle) stepRemove(r wire.Req) *Fail {
 			}
 			// "exactly their named effect": delete-file removes files, rmdir removes directories. Symbolic
 			// links are left out (whether the link or its target decides is not stated).
+			if r.Op == wire.OpRmdir && gone && st.Mode&syscall.S_IFMT == syscall.S_IFLNK {
+				// a symbolic link is not a directory, whatever it points to (rmdir(2) refuses it); whether
+				// delete-file removes the link or refuses is left open
+				return fail("remove-truth", "RMDIR-symlink", "%s %q removed a symbolic link", r.Op, r.Path)
+			}
 			if !matching && gone && st.Mode&syscall.S_IFMT != syscall.S_IFLNK {
 				return fail("remove-truth", r.Op.String()+"-wrong-kind", "%s %q removed a %s", r.Op, r.Path, pick(isDir(st), "directory", "file that is not a directory"))
 			}
